@@ -12,7 +12,7 @@ OUT=/tmp/mutcheck-$TAG; mkdir -p $OUT
 git -C $WT checkout -q -- . && git -C $WT clean -fdq
 if [ "$PATCH" != "none" ]; then git -C $WT apply "$PATCH" || { echo "patch does not apply"; exit 2; }; fi
 sed "s#=> /repo#=> $WT#" $V/harness/go.mod > $OUT/go.mod; cp $V/harness/go.sum $OUT/go.sum
-python3 $V/harness/overlay/mkoverlay.py "$(go1.26.8 env GOROOT)" $OUT/ov >/dev/null || exit 2
+VERIF_REPO=$WT python3 $V/harness/overlay/mkoverlay.py "$(go1.26.8 env GOROOT)" $OUT/ov >/dev/null || exit 2
 (cd $V/harness && go1.26.8 build -modfile=$OUT/go.mod -overlay $OUT/ov/overlay.json -o $OUT/verifsim ./cmd/verifsim) || { echo BUILD-FAILED; git -C $WT checkout -q -- .; exit 2; }
 for p in "$@"; do
   VERIF_EVIDENCE_DIR=$OUT/evidence VERIF_REPLAY_DIR=$OUT/replays $OUT/verifsim check $p $TIER > $OUT/$p.log 2>&1; rc=$?
